@@ -1008,11 +1008,12 @@ def campaign_chdir(ck: Check, n: int) -> None:
         camp.hit("path:" + ("relative" if relative and target is not None else "absolute"))
         key = {"shape": shape, "body_raises": body_raises, "relative": relative and target is not None}
         camp.distinct.add(json.dumps(key, sort_keys=True))
-        obs.append((key, fault, target is not None, impl, diff))
-    reps = ck.driver.run([f"write.chdir {int(some)} {hx(fault)}" for _, fault, some, _, _ in obs])
-    for (key, fault, some, impl, diff), rep in zip(obs, reps):
+        obs.append((key, fault, target is not None, impl, diff, shape.startswith("missing") or shape == "dir_below_missing"))
+    reps = ck.driver.run([f"write.chdir {int(some)} {hx(fault)}" for _, fault, some, *_ in obs])
+    # a `mkdir` step of the table shows in the listing only where the directory was missing (what else an effect step does is visible always)
+    for (key, fault, some, impl, diff, dir_missing), rep in zip(obs, reps):
         vals = dict(t.split("=", 1) for t in rep.split(" ")[1:])
-        model = {"inside": vals.get("inside") if fault != "enter" else None, "after": "orig" if vals.get("after") == "orig" else "moved", "created": vals.get("effects") != "0"}
+        model = {"inside": vals.get("inside") if fault != "enter" else None, "after": "orig" if vals.get("after") == "orig" else "moved", "created": vals.get("otherEffects") != "0" or (vals.get("mkdirs") != "0" and dir_missing)}
         if fault == "enter" and vals.get("entered") == "true":
             model["inside"] = "no-step-of-the-table-switches-directory"
         if model != impl:
